@@ -11,14 +11,27 @@
 //!            Only this makes the wait set's capacity paths reachable with a handful of attachments.
 //!
 //! Time: the deadline queue reads the real monotonic clock, which cannot be injected.  The model's
-//! clock is a logical counter of units; the harness maps 1 unit = UNIT_MS milliseconds:
-//! `advance k` sleeps until `base + T*UNIT + j` where j is the real-time offset ("jitter") of the
-//! previous operation inside its unit; so the offsets of successive clock reads inside their units
-//! never decrease, and as long as the accumulated offset stays below one unit every quotient
-//! `(t1 - t0) / period` the deadline queue computes equals the quotient of the logical times (periods
-//! are whole units).  The offset is checked after every operation of a case that uses a finite
-//! period; when it exceeds 3/4 unit (machine overloaded) the case is re-executed from its start.
-//! Periods used: 0 (always expired), a few units (expire through `advance`), 1_000_000 units (never).
+//! clock is a logical counter of units; the harness maps 1 unit = UNIT (10 ms, VERIF_C20_UNIT_MS):
+//! `advance k` sleeps until `base + T*UNIT + j` where j is the largest real-time offset ("jitter") any
+//! earlier operation of the case had inside its unit; so the offsets of successive clock reads inside
+//! their units never decrease, and as long as the accumulated offset stays below one unit every
+//! quotient `(t1 - t0) / period` the deadline queue computes equals the quotient of the logical times
+//! (periods are whole units).  The offset is checked after every operation of a case that uses a
+//! finite period; when it exceeds 3/4 unit (machine overloaded) the case is re-executed from its
+//! start with a doubled unit (up to 6 times; then the output carries ` CLOCK-OVERRUN`).
+//! Periods used: 0 (always expired), 1..5 units (expire through `advance`), 1_000_000 units (never).
+//!
+//! Ops: `new <ipc|sel|cap> <capacity> <nlisteners> <nservices>` (listener l belongs to service
+//! l % nservices; capacity is only used by `cap`, for the others it states the real one),
+//! `attach_n <guard> <listener>`, `attach_d <guard> <listener> <period>`, `attach_i <guard> <period>`,
+//! `drop_guard <guard>`, `notify <listener> <event>` (Notifier::for_each_listener + Monofier: this
+//! listener only), `notify_all <service> <event>`, `drain <listener>` (Listener::try_wait),
+//! `run_once` (wait_and_process_once_with_timeout(cb, 0); output = sorted `<guard>:<n|d|t>` for every
+//! callback x guard with has_missed_deadline (d) / has_event_from (n, t for interval guards)),
+//! `advance <units>`, `len`, `capacity`, `is_empty`, `fill <first-guard> <n> <period>` (n interval
+//! attachments), `maps` (sizes of the two private BTreeMaps, read off `{:?}`).
+//! The ports of a (nlisteners, nservices) configuration are created once per process in an own
+//! domain (config prefix `vw<pid>_`), drained at every `new`, and removed at exit.
 use crate::common::*;
 use core::time::Duration;
 use iceoryx2::port::listener::Listener;
@@ -376,6 +389,32 @@ where
             }
             "ok".into()
         }
+        "maps" => {
+            // sizes of the two private maps, read off the derived Debug output (replay of finding D21)
+            let d = format!("{ws:?}");
+            let count = |field: &str| -> String {
+                match d.find(field) {
+                    Some(i) => {
+                        let rest = &d[i + field.len()..];
+                        let open = rest.find('{').map(|o| {
+                            // the map literal: from the first '{' that starts a map to its matching '}'
+                            let bytes = rest.as_bytes();
+                            let mut depth = 0i32;
+                            let mut end = o;
+                            for (k, b) in bytes.iter().enumerate().skip(o) {
+                                if *b == b'{' { depth += 1; }
+                                if *b == b'}' { depth -= 1; if depth == 0 { end = k; break; } }
+                            }
+                            rest[o..=end].matches("DeadlineQueueIndex(").count()
+                        });
+                        open.map(|c| c.to_string()).unwrap_or("?".into())
+                    }
+                    None => "?".into(),
+                }
+            };
+            if std::env::var("VERIF_C20_DEBUG").is_ok() { eprintln!("{d}"); }
+            format!("a2d={} d2a={}", count("attachment_to_deadline:"), count("deadline_to_attachment:"))
+        }
         "len" => format!("{}", ws.len()),
         "capacity" => format!("{}", ws.capacity()),
         "is_empty" => format!("{}", ws.is_empty()),
@@ -502,8 +541,8 @@ pub fn generate(a: &Args) -> Vec<Vec<String>> {
             lines.push(format!("fill 100000 {k} {FAR}"));
             lines.push("len".to_string());
         }
-        // weights: attach_n attach_d attach_i drop notify notify_all drain run_once advance len capacity is_empty
-        let wts: [u64; 12] = [14, 9, 7, 11, 17, 4, 8, 22, if timed { 8 } else { 0 }, 2, 1, 1];
+        // weights: attach_n attach_d attach_i drop notify notify_all drain run_once advance len capacity is_empty maps
+        let wts: [u64; 13] = [14, 9, 7, 11, 17, 4, 8, 22, if timed { 8 } else { 0 }, 2, 1, 1, 2];
         let total: u64 = wts.iter().sum();
         for _ in 0..rng.range(3, a.len) {
             let mut c = rng.below(total);
@@ -539,7 +578,8 @@ pub fn generate(a: &Args) -> Vec<Vec<String>> {
                 8 => format!("advance {}", rng.range(1, 3)),
                 9 => "len".to_string(),
                 10 => "capacity".to_string(),
-                _ => "is_empty".to_string(),
+                11 => "is_empty".to_string(),
+                _ => "maps".to_string(),
             };
             lines.push(line);
         }
@@ -579,6 +619,7 @@ fn exhaustive(a: &Args, variant: &str) -> Vec<Vec<String>> {
             }
             lines.push("run_once".to_string());
             lines.push("len".to_string());
+            lines.push("maps".to_string());
             cases.push(lines);
         });
     }
